@@ -20,6 +20,12 @@ func hostilePrograms(r *rand.Rand) []*Program {
 		ps = append(ps, rawProgram(src+"\n", meta, Input{Name: "hostfail", V: V{"k": "hostfn", "name": "hostfail"}},
 			Input{Name: "hostpanic", V: V{"k": "hostfn", "name": "hostpanic"}}))
 	}
+	// runaway programs: only the context (3 s in the check) stops them
+	add("runaway-loop", "for {}")
+	add("runaway-tailcall", "f := func(n) { return f(n + 1) }\nr := f(0)")
+	add("runaway-tailcall-discard", "f := func(n) { f(n + 1) }\nf(0)")
+	add("runaway-tailcall-variadic", "f := func(...a) { return f(a...) }\nr := f(1, 2)")
+	add("runaway-forin", "a := [1]\nfor { for x in a { } }")
 	add("recursion-frames", "f := func(n) { return 1 + f(n + 1) }\nr := f(0)")
 	add("recursion-noargs", "f := func() { return f() + 1 }\nr := f()")
 	add("recursion-mutual", "g := undefined\nf := func(n) { return g(n) + 1 }\ng = func(n) { return f(n) + 1 }\nr := f(0)")
